@@ -1533,7 +1533,8 @@ func (s *c10seq1) randomOps1(rng *Rng, cfg c10cfg1) {
 
 type c10seqL struct {
 	*c10seq
-	mapID uint64
+	mapID    uint64
+	borrowID uint64 // the liquidated borrow behind the tracked auction
 }
 
 func (s *c10seqL) auctionL() (auctiontypes.DutchAuction, bool) {
@@ -1560,17 +1561,49 @@ func (s *c10seqL) stateL() string {
 		}
 		c := s.f.app.BankKeeper.GetBalance(s.ctx, a, s.p.coll.denom).Amount
 		d := s.f.app.BankKeeper.GetBalance(s.ctx, a, s.p.debt.denom).Amount
-		if n == "pool" {
-			r := s.f.app.AccountKeeper.GetModuleAddress(lendtypes.ModuleName)
-			c = c.Add(s.f.app.BankKeeper.GetBalance(s.ctx, r, s.p.coll.denom).Amount)
-			d = d.Add(s.f.app.BankKeeper.GetBalance(s.ctx, r, s.p.debt.denom).Amount)
-		}
-		if n == "lendres" || n == "poolin" {
-			c, d = sdk.ZeroInt(), sdk.ZeroInt() // folded into "pool" for this generation
+		if n == "poolin" {
+			c, d = sdk.ZeroInt(), sdk.ZeroInt() // same-pool borrows only in this generation's population
 		}
 		sb = append(sb, n+":"+c.String()+":"+d.String())
 	}
-	return rec + "\t" + strings.Join(sb, ",") + "\t" + fmt.Sprintf("next=%d", s.f.app.AuctionKeeper.GetLendAuctionID(s.ctx))
+	return rec + "\t" + strings.Join(sb, ",") + "\t" + fmt.Sprintf("next=%d", s.f.app.AuctionKeeper.GetLendAuctionID(s.ctx)) + "\t" + s.bookL()
+}
+
+// bookL prints the lend-side records the close of the auction works on: locked vault, borrow position, interest tracker and the
+// cToken balances (pool: cTokens of the debt asset and of the collateral asset; borrower: cTokens of the collateral asset)
+func (s *c10seqL) bookL() string {
+	app := s.f.app
+	lv := "none"
+	if v, found := app.LiquidationKeeper.GetLockedVault(s.ctx, s.f.appID, s.lvID); found {
+		lv = fmt.Sprintf("%s:%s:%s", v.AmountIn, v.AmountOut, v.UpdatedAmountOut)
+	}
+	bo, in := "none", "0"
+	if b, found := app.LendKeeper.GetBorrow(s.ctx, s.borrowID); found {
+		liq := 0
+		if b.IsLiquidated {
+			liq = 1
+		}
+		bo = fmt.Sprintf("%s:%s:%d", b.AmountIn.Amount, b.AmountOut.Amount, liq)
+		in = c10raw(b.InterestAccumulated)
+	}
+	tk := "0"
+	if t, found := app.LendKeeper.GetBorrowInterestTracker(s.ctx, s.borrowID); found {
+		tk = c10raw(t.ReservePoolInterest)
+	}
+	cD, cC := "", ""
+	if r, found := app.LendKeeper.GetAssetRatesParams(s.ctx, s.p.debt.id); found {
+		if a, ok := app.AssetKeeper.GetAsset(s.ctx, r.CAssetID); ok {
+			cD = a.Denom
+		}
+	}
+	if r, found := app.LendKeeper.GetAssetRatesParams(s.ctx, s.p.coll.id); found {
+		if a, ok := app.AssetKeeper.GetAsset(s.ctx, r.CAssetID); ok {
+			cC = a.Denom
+		}
+	}
+	pool := s.acct("pool")
+	return fmt.Sprintf("lv=%s;borrow=%s;int=%s;trk=%s;ctok=%s:%s:%s", lv, bo, in, tk,
+		app.BankKeeper.GetBalance(s.ctx, pool, cD).Amount, app.BankKeeper.GetBalance(s.ctx, pool, cC).Amount, app.BankKeeper.GetBalance(s.ctx, s.acct("owner"), cC).Amount)
 }
 
 type c10cfgL struct {
@@ -1583,11 +1616,30 @@ type c10cfgL struct {
 	shiftAuc    uint64 // lend-auction-id counter ahead
 	shiftLv     uint64 // locked-vault-id counter ahead (vault liquidations share it)
 	resFund int64 // debt-denom funds of the lend reserve (lend module account): pays when the collateral is sold out below the target
+	age     int64 // seconds between the borrow and its liquidation: the liquidation books the interest accrued meanwhile
 }
+
+func app0(f *c10fix) *chain.App { return f.app }
 
 func c10startL(t *testing.T, f *c10fix, tr *Trace, cfg c10cfgL) *c10seqL {
 	ctx, _ := f.base.CacheContext()
 	s := &c10seqL{c10seq: &c10seq{f: f, ctx: ctx, tr: tr, p: f.pairs[0], kind: "l1", now: f.t0, h: 10}, mapID: 3}
+	if cfg.age > 0 {
+		s.now = f.t0.Add(time.Duration(cfg.age) * time.Second)
+		s.h += cfg.age / 6
+		ctx = ctx.WithBlockTime(s.now).WithBlockHeight(s.h)
+		s.ctx = ctx
+		tr.Count("worldL:aged-borrow")
+		if cfg.age%2 == 0 {
+			// the borrowers let the lend module book their interest first (MsgCalculateInterestAndRewards): that fills the interest
+			// tracker with the reserve's share, which the close of the auction forwards to the lend module
+			for _, l := range []string{"lender1", "lender2"} {
+				if ok, _ := c10deliver(app0(f), ctx, lendtypes.NewMsgCalculateInterestAndRewards(c10addr(l).String())); ok {
+					tr.Count("worldL:interest-booked-before-liquidation")
+				}
+			}
+		}
+	}
 	app := f.app
 	fail := func(why string) *c10seqL {
 		tr.Count("setupL:" + why)
@@ -1661,15 +1713,19 @@ func c10startL(t *testing.T, f *c10fix, tr *Trace, cfg c10cfgL) *c10seqL {
 		}
 	}
 	pair, _ := app.LendKeeper.GetLendPair(ctx, lv.ExtendedPairId)
-	tr.Line("dutch.l1.begin", fmt.Sprintf("decC=%d;decD=%d;target=%s;coll0=%s;deposit=%s;bonus=%s;dust=%d;T=%d;buffer=%s;cusp=%s;twaC=%d",
+	s.lvID, s.borrowID = a.LockedVaultId, lv.OriginalVaultId
+	tr.Line("dutch.l1.begin", fmt.Sprintf("decC=%d;decD=%d;target=%s;coll0=%s;deposit=%s;bonus=%s;dust=%d;T=%d;buffer=%s;cusp=%s;twaC=%d;ltv=%s;pen=%s;thr=%s",
 		s.p.coll.dec, s.p.debt.dec, a.InflowTokenTargetAmount.Amount, a.OutflowTokenInitAmount.Amount, deposit, c10raw(rates.LiquidationBonus), pair.MinUsdValueLeft, cfg.T,
-		c10raw(c10dec(cfg.buffer)), c10raw(c10dec(cfg.cusp)), cfg.dropTo), s.stateL())
+		c10raw(c10dec(cfg.buffer)), c10raw(c10dec(cfg.cusp)), cfg.dropTo, c10raw(rates.Ltv), c10raw(rates.LiquidationPenalty), c10raw(rates.LiquidationThreshold)), s.stateL())
 	tr.Count("begin:l1")
 	return s
 }
 
 func (s *c10seqL) bidL(who string, amt sdk.Int) {
 	res := s.lendResDebt()
+	tc, ac := s.collTwa()
+	td, ad := s.debtTwa()
+	_, lvWas := s.f.app.LiquidationKeeper.GetLockedVault(s.ctx, s.f.appID, s.lvID)
 	ok, cl := c10deliver(s.f.app, s.ctx, &auctiontypes.MsgPlaceDutchLendBidRequest{Bidder: c10addr(who).String(), AuctionId: s.aucID, Amount: sdk.Coin{Denom: s.p.coll.denom, Amount: amt},
 		AppId: s.f.appID, AuctionMappingId: s.mapID})
 	s.tr.Count("bidL:" + cl)
@@ -1686,7 +1742,30 @@ func (s *c10seqL) bidL(who string, amt sdk.Int) {
 			s.tr.Count("partial-fillL")
 		}
 	}
-	s.tr.Line("dutch.l1.bid", who, amt.String(), res.String(), cl, s.stateL())
+	if ok {
+		if _, open := s.auctionL(); !open && lvWas {
+			// which branch of UnLiquidateLockedBorrows the close took
+			_, lvIs := s.f.app.LiquidationKeeper.GetLockedVault(s.ctx, s.f.appID, s.lvID)
+			b, bIs := s.f.app.LendKeeper.GetBorrow(s.ctx, s.borrowID)
+			switch {
+			case lvIs:
+				s.tr.Count("closeL:book:re-liquidated")
+			case !bIs:
+				s.tr.Count("closeL:book:borrow-deleted")
+			case bIs && !b.IsLiquidated:
+				s.tr.Count("closeL:book:borrow-restored")
+			default:
+				s.tr.Count("closeL:book:other")
+			}
+		}
+	}
+	b2s := func(x bool) string {
+		if x {
+			return "1"
+		}
+		return "0"
+	}
+	s.tr.Line("dutch.l1.bid", who, amt.String(), res.String(), u(tc), b2s(ac), u(td), b2s(ad), cl, s.stateL())
 }
 
 func (s *c10seqL) tickL(dt time.Duration) {
@@ -2032,11 +2111,21 @@ func TestC10(t *testing.T) {
 			sl.bidL("b2", a.OutflowTokenCurrentAmount.Amount)
 		}
 	}
+	// the same with a borrow that is a year old: interest was booked at liquidation, the close sends the reserve's share to the lend
+	// module and mints cTokens for the rest
+	cl.age = 86400 * 365
+	if sl = c10startL(t, fl, tr, cl); sl != nil {
+		sl.bidL("b1", sdk.NewInt(1000000))
+		if a, ok := sl.auctionL(); ok {
+			sl.bidL("b2", a.OutflowTokenCurrentAmount.Amount)
+		}
+	}
 	nL := scale(150, 6000)
 	for i := 0; i < nL; i++ {
 		cfg := c10cfgL{dropTo: []uint64{1860000, 1800000, 1700000, 1500000, 1200000, 900000, 400000}[rng.Intn(7)],
 			T: []uint64{10, 60, 600, 3600, 21600}[rng.Intn(5)], buffer: []string{"1.2", "1.05", "1.5", "1"}[rng.Intn(4)],
-			cusp: []string{"0.7", "0.5", "0.9", "0.3"}[rng.Intn(4)], sweep: rng.Chance(50), resFund: []int64{0, 1000, 500000000, 500000000}[rng.Intn(4)]}
+			cusp: []string{"0.7", "0.5", "0.9", "0.3"}[rng.Intn(4)], sweep: rng.Chance(50), resFund: []int64{0, 1000, 500000000, 500000000}[rng.Intn(4)],
+			age: []int64{0, 0, 3600, 3601, 86400 * 30, 86400*30 + 1, 86400 * 365}[rng.Intn(7)]}
 		cfg.trackSecond = cfg.sweep && rng.Chance(50)
 		if rng.Chance(45) {
 			cfg.shiftAuc = []uint64{0, 1, 2}[rng.Intn(3)]
